@@ -38,7 +38,13 @@ type scriptSource struct {
 	log  []int
 }
 
+// a single model operation never needs more draws than this; beyond it the code under test is spinning
+const maxDrawsPerOp = 200000
+
 func (s *scriptSource) Int63() int64 {
+	if len(s.log) > maxDrawsPerOp {
+		panic("scripted random source: more than 200000 draws in one operation (the operation spins)")
+	}
 	v := s.next()
 	s.log = append(s.log, v)
 	return int64(v) << 32
@@ -296,6 +302,7 @@ func (cm *CM) emitLoad(c *Ctx) {
 // ---------------------------------------------------------------- operations on the real model
 
 func (cm *CM) tryRandom(i int) {
+	cm.src.log = nil
 	cm.src.next = func() int { return i }
 	cm.m.TryRandomChange()
 }
